@@ -159,6 +159,16 @@ PROPS = {
             "relations": [("binarizer_vs_preconverted", REL.gen_c14, REL.run_c14, (200, 3000))],
             "rule": "Thompson Sampling with threshold / flip / greater-than binarizers alone and under Radius, KNearest, LSHNearest, Clusters, TreeBandit; "
                     "add_arm may install a new binarizer; twin bandit without binarizer is fed the converted rewards; non-trivial = >= 1 training call"},
+    "C15": {"gen": g_any, "fields": ("out", "arms"), "functional": False, "n": (100, 1000),
+            "relations": [("simulator_vs_public_api", REL.gen_c15, REL.run_c15, (120, 1500))],
+            "rule": "random data sets (20-70 rows, arms absent from train or test), 1-3 bandits per simulation (context-free, linear, Radius/KNearest with nine metrics incl. "
+                    "seuclidean / mahalanobis, LSH, Clusters, TreeBandit), test_size, ordered / random split, batch_size in {0,1,k,|test|}, is_quick; predictions compared with an "
+                    "independent replay through MAB.fit / predict / predict_expectations / partial_fit on a deep copy taken before the simulation; non-trivial = simulation completed"},
+    "C16": {"gen": g_any, "fields": ("out", "arms"), "functional": True, "n": (60, 600),
+            "relations": [("bookkeeping_laws", REL.gen_c16, REL.run_c16, (150, 2000))],
+            "rule": "same simulations as C15 restricted to four metrics; every public attribute after run(): split partition, one prediction per test row, total/train/test statistics "
+                    "versus numpy recomputation, train + test = total, default evaluation (incl. neighbourhood statistics when not quick) versus direct recomputation, counts sum "
+                    "to the test size, min <= mean <= max; non-trivial = simulation completed"},
     "C17": {"gen": g_any, "fields": ("out", "arms", "cold", "cfexp", "stats", "status", "nhist"), "functional": False, "n": (150, 2000),
             "relations": [("rejected_call_changes_nothing", REL.gen_c17, REL.run_c17, (400, 8000))],
             "rule": "19 classes of invalid call (length mismatch, non-finite / non-binary rewards, contexts missing / superfluous / wrong row count / wrong width, "
